@@ -825,6 +825,7 @@ impl Model {
                 }
             }
             Op::SetReporter => {}
+            Op::PrepEvent { .. } => {}
             Op::Unwind { steps } => {
                 // flat layout: [begin marker] [steps] [end: everything left open is closed]
                 let floor = self.threads[t].frames.len();
